@@ -753,3 +753,54 @@ theorem unpackTar_never_panics {σ : Type} (H : Bytes → Bytes) (ops : FsOps σ
                         simp [this]
 
 end Rio
+
+namespace Rio
+
+/-- the record key of "the name `p` as a non-directory" -/
+def fileTwin (p : RelPath) : Meta := { defaultDirMeta p with kind := .file }
+
+theorem has_add_mono (b : Bucket) (m x : Meta) (ch : Bytes) (h : b.has m = true) : (b.add x ch).has m = true := by
+  unfold Bucket.has Bucket.add at *
+  simp only [List.any_append, Bool.or_eq_true]
+  exact Or.inl h
+
+/-- **Nothing is conjured below a name that an earlier entry supplied as a non-directory**: if some parent of the
+    entry is not a known directory while the bucket holds that very name as a file / symlink / device, the parent
+    loop does not come back with success (it answers corrupt-ware, or an earlier parent already failed). -/
+theorem conjure_not_ok {σ : Type} (ops : FsOps σ) (myUid myGid : Nat) (filt : UnpackFilter) :
+    ∀ (ps : List RelPath) (st : UnpackSt σ), (∃ p ∈ ps, p ∉ st.dirs ∧ st.pre.has (fileTwin p) = true) →
+      ∀ st', conjureParents ops myUid myGid filt ps st ≠ .ok st'
+  | [], st, h, st' => by obtain ⟨p, hp, _⟩ := h; cases hp
+  | q :: ps, st, h, st' => by
+    obtain ⟨p, hp, hnd, hhas⟩ := h
+    rw [conjureParents]
+    by_cases hc : st.dirs.contains q = true
+    · simp only [hc, if_true]
+      have hpq : p ≠ q := fun e => hnd (by rw [e]; simpa using hc)
+      have hp' : p ∈ ps := by
+        rcases List.mem_cons.1 hp with e | e
+        · exact absurd e hpq
+        · exact e
+      exact conjure_not_ok ops myUid myGid filt ps st ⟨p, hp', hnd, hhas⟩ st'
+    · simp only [hc, Bool.false_eq_true, if_false]
+      by_cases hf : st.pre.has { defaultDirMeta q with kind := .file } = true
+      · simp [hf]
+      · simp only [hf, Bool.false_eq_true, if_false]
+        have hpq : p ≠ q := fun e => hf (by rw [← e]; exact hhas)
+        have hp' : p ∈ ps := by
+          rcases List.mem_cons.1 hp with e | e
+          · exact absurd e hpq
+          · exact e
+        cases hpl : ops.place st.fs (conjFiltered myUid myGid filt (defaultDirMeta q)) [] true with
+        | mk fs' e =>
+          have hpl' : ops.1 st.fs (conjFiltered myUid myGid filt (defaultDirMeta q)) [] true = (fs', e) := hpl
+          cases e with
+          | some c => simp [hpl']
+          | none =>
+            simp only [hpl']
+            apply conjure_not_ok ops myUid myGid filt ps _ ⟨p, hp', ?_, ?_⟩ st'
+            · simp only [List.mem_cons, not_or]
+              exact ⟨hpq, hnd⟩
+            · exact has_add_mono _ _ _ _ hhas
+
+end Rio
